@@ -157,7 +157,45 @@ def gen_stock(rng):
     return {"kind": "stock", "W": W, "sizes": sizes, "demands": demands, "floats": rng.random() < 0.3}
 
 
+def degenerate_reentry_corpus(rng, k=12):
+    """a master LP in which a demand row's surplus variable enters, leaves and is needed again within one phase-2 run (degenerate
+    over-production among three columns) - found by a reviewer's search (about 1 in 4000 uniform instances has it); the instance, and
+    variants of it with the initial columns listed in other orders and the rows permuted"""
+    cols = [(3, 1, 0, 1), (2, 2, 1, 2), (1, 0, 0, 0), (0, 1, 0, 0), (0, 0, 1, 0), (0, 0, 0, 1)]
+    init = [(0, 0, 1, 0), (3, 1, 0, 1), (0, 1, 0, 0), (1, 0, 0, 0), (0, 0, 0, 1)]
+    dem = [3, 4, 0, 2]
+    out = [{"kind": "custom", "demands": list(dem), "initial": [list(c) for c in init], "pool": sorted(cols)}]
+    for _ in range(k):
+        perm = list(range(4))
+        if rng.random() < 0.5:
+            rng.shuffle(perm)
+        ini = list(init)
+        if rng.random() < 0.6:
+            rng.shuffle(ini)
+        d = [dem[i] for i in perm]
+        if rng.random() < 0.3:
+            d = [x * 2 for x in d]
+        out.append({"kind": "custom", "demands": d, "initial": [[c[i] for i in perm] for c in ini], "pool": sorted(tuple(c[i] for i in perm) for c in cols)})
+    return out
+
+
 def gen_custom(rng):
+    if rng.random() < 0.25:
+        # wider explicit column sets: up to 5 rows, entries 0..3, demands 0..6
+        m = rng.randint(3, 5)
+        demands = [rng.randint(0, 6) for _ in range(m)]
+        if sum(demands) == 0:
+            demands[0] = 1
+        initial = [[1 if i == j else 0 for i in range(m)] for j in range(m)]
+        pool = {tuple(c) for c in initial}
+        for _ in range(rng.randint(2, 8)):
+            col = tuple(rng.randint(0, 3) for _ in range(m))
+            if any(col):
+                pool.add(col)
+        extra = [list(c) for c in pool if rng.random() < 0.4 and list(c) not in initial]
+        initial = initial + extra
+        rng.shuffle(initial)
+        return {"kind": "custom", "demands": demands, "initial": initial, "pool": sorted(pool)}
     m = rng.randint(1, 3)
     demands = [rng.randint(0, 3) for _ in range(m)]
     if sum(demands) == 0:
